@@ -69,7 +69,7 @@ TABLE_CONSTS = {
         "MaxSteps": 2, "MaxFields": 5, "MaxTypeDepth": 2},
 }
 MATRIX_CONSTS = {
-    0: {"RowNew": '{"ra", "rb"}', "ColNew": '{"ca"}', "EntryNew": '{"e", "f"}', "RowTpl": '{"flt", "arr_ridx", "ridxstr"}',
+    0: {"RowNew": '{"ra"}', "ColNew": '{"ca"}', "EntryNew": '{"e", "f"}', "RowTpl": '{"flt", "arr_ridx", "ridxstr"}',
         "ColTpl": '{"cidxstr"}', "EntryTpl": '{"prod", "eplusra"}', "AggTplNames": '{"count", "sume"}',
         "MaxSteps": 2, "MaxFields": 3},
     1: {"RowNew": '{"ra", "rb"}', "ColNew": '{"ca", "cb"}', "EntryNew": '{"e", "f"}',
